@@ -150,6 +150,13 @@ def generate(rng, tier, index):
     if kind in STREAM_KINDS and kind != 'sync_serial' and rng.random() < 0.3:
         # the hostile peer vanishes (close or reset) at an arbitrary instant of its own traffic, also mid-frame
         sc.add_peer_close(rng, scn, conn=0)
+    elif kind in STREAM_KINDS and kind != 'sync_serial' and rng.random() < 0.15:
+        # the hostile peer crashes and comes back from the same address and port: the probe connection IS that
+        # re-connection, and the server learns of the old connection's death only after it accepted the new one
+        scn['opts']['same_addr'] = {'2': 0}
+        scn['peer_closes'] = [{'c': 0, 'at': scn['open_at']['2'], 'how': rng.choice(['reset', 'reset', 'eof'])}]
+        # ... and the re-connected peer finally leaves in an orderly way
+        scn['closes'] = [{'c': 2, 'after': 0.2, 'how': 'eof'}]
     return scn
 
 
